@@ -50,11 +50,11 @@ def errorToCode (e : Err) : Nat :=
 /-- `common.IsAppError`, driven by the regenerated list. -/
 def isAppError (e : Err) : Bool := Gen.isAppErrorList.contains e.name
 
-/-- The text of `err.Error()`. -/
-def Err.message (e : Err) : String :=
+/-- The text of `err.Error()`, as bytes. -/
+def Err.message (e : Err) : Bytes :=
   match Gen.common_errors.find? (fun p => p.1 == e.name) with
-  | some (_, m) => m
-  | none => ""
+  | some (_, _, m) => m
+  | none => []
 
 structure Item where
   data     : Bytes
